@@ -57,6 +57,15 @@ def module_globals(repo, module):
 
 def local_names(fnode):
     """Names bound anywhere in the function (not nested defs' internals)."""
+    cached = getattr(fnode, "_sa_local_names", None)
+    if cached is not None:
+        return cached
+    out = _local_names(fnode)
+    fnode._sa_local_names = out
+    return out
+
+
+def _local_names(fnode):
     out = set()
     for n in own_nodes(fnode):
         if isinstance(n, ast.Name) and isinstance(n.ctx, (ast.Store, ast.Del)):
